@@ -234,24 +234,47 @@ theorem feed_init (m t i j : Nat) (hj : j < 65536) (block extra : Bytes) (st : S
   congr 1
   rw [← hb]; simp
 
+theorem Stores.get_upd (g : Stores) (i k : Nat) (st : Store) :
+    (g.upd i st).get k = if k = i ∧ i < g.length then st else g.get k := by
+  simp only [Stores.get, Stores.upd, getD_eq_getElem?_getD, getElem?_set]
+  by_cases hk : k = i
+  · subst hk
+    by_cases hl : k < g.length
+    · simp [hl]
+    · simp [hl]
+  · have : ¬ i = k := fun h => hk h.symm
+    simp [hk, this]
+
+theorem Stores.length_upd (g : Stores) (i : Nat) (st : Store) : (g.upd i st).length = g.length := by
+  simp [Stores.upd]
+
+theorem length_stepHs (m t : Nat) (noPrss : Bool) (g : Stores) (e : Hs) :
+    (stepHs m t noPrss g e).length = g.length := by
+  simp [stepHs, Stores.length_upd]
+
+theorem length_initStores (m t : Nat) (noPrss : Bool) (tok : Nat → Nat → Bytes) :
+    (initStores m t noPrss tok).length = m := by
+  simp [initStores]
+
 /-- a complete handshake: the server's new store -/
 theorem stepHs_store (m t : Nat) (g : Stores) (e : Hs) (hc : e.client < 65536)
+    (hsl : e.server < g.length)
     (hk : ∀ s ∈ keysFromPeer m t e.server e.client,
-      ∃ v, (g e.client).get? s = some v ∧ v.length = 16) (s : Subset) :
-    (stepHs m t false g e e.server).get? s =
-      if s ∈ keysFromPeer m t e.server e.client then (g e.client).get? s
-      else (g e.server).get? s := by
-  have hlen := length_keyBlock (g e.client) _ hk
-  simp only [stepHs, Stores.upd, ↓reduceIte, Server.feedAll_chunksOf]
-  have hmsg : clientMsg m t e.client e.server false (g e.client)
-      = pidBytes e.client ++ (keyBlock (g e.client) (keysFromPeer m t e.server e.client) ++ []) := by
+      ∃ v, (g.get e.client).get? s = some v ∧ v.length = 16) (s : Subset) :
+    ((stepHs m t false g e).get e.server).get? s =
+      if s ∈ keysFromPeer m t e.server e.client then (g.get e.client).get? s
+      else (g.get e.server).get? s := by
+  have hlen := length_keyBlock (g.get e.client) _ hk
+  simp only [stepHs, Stores.get_upd, hsl, and_self, ↓reduceIte, Server.feedAll_chunksOf]
+  have hmsg : clientMsg m t e.client e.server false (g.get e.client)
+      = pidBytes e.client ++ (keyBlock (g.get e.client) (keysFromPeer m t e.server e.client) ++ []) := by
     simp [clientMsg, keysToPeer_eq_keysFromPeer]
   rw [hmsg, feed_init m t e.server e.client hc _ [] _ (by rw [hlen, lenPacket])]
-  exact get?_storeKeys_keyBlock (g e.client) _ (nodup_keysFromPeer _ _ _ _) hk [] [] _ s
+  exact get?_storeKeys_keyBlock (g.get e.client) _ (nodup_keysFromPeer _ _ _ _) hk [] [] _ s
 
 theorem stepHs_other (m t : Nat) (noPrss : Bool) (g : Stores) (e : Hs) {k : Nat}
-    (hk : k ≠ e.server) : stepHs m t noPrss g e k = g k := by
-  simp [stepHs, Stores.upd, hk]
+    (hk : k ≠ e.server) : (stepHs m t noPrss g e).get k = g.get k := by
+  simp [stepHs, Stores.get_upd, hk]
 
 /-! ### invariant of a run of handshakes -/
 
@@ -262,8 +285,19 @@ def held (m t : Nat) (tok : Nat → Nat → Bytes) (done : List (Nat × Nat)) (i
     some (genKey m t tok s) else none
 
 theorem inv_init (m t : Nat) (tok : Nat → Nat → Bytes) (i : Nat) (s : Subset) :
-    (initStores m t false tok i).get? s = held m t tok [] i s := by
-  simp only [initStores, Bool.false_eq_true, ↓reduceIte, get?_genStore, held, not_mem_nil, or_false]
+    ((initStores m t false tok).get i).get? s = held m t tok [] i s := by
+  by_cases him : i < m
+  swap
+  · have h1 : (initStores m t false tok).get i = [] := by
+      simp [Stores.get, initStores, him]
+    have h2 : ¬ (s ∈ subsets m t ∧ i ∈ s ∧ (hd s = i ∨ (hd s, i) ∈ [])) := by
+      rintro ⟨hs, hi, _⟩
+      exact him ((mem_subsets.1 hs).2.1 i hi)
+    rw [h1, held, if_neg h2]; rfl
+  have h0 : (initStores m t false tok).get i = genStore m t i (tok i) := by
+    simp [Stores.get, initStores, him]
+  rw [h0]
+  simp only [get?_genStore, held, not_mem_nil, or_false]
   by_cases hs : s ∈ subsets m t
   · by_cases hh : headIs s i = true
     · have := headIs_iff.1 hh
@@ -276,19 +310,19 @@ theorem inv_init (m t : Nat) (tok : Nat → Nat → Bytes) (i : Nat) (s : Subset
 
 theorem inv_step (m t : Nat) (tok : Nat → Nat → Bytes) (htok : ∀ p k, (tok p k).length = 16)
     (g : Stores) (done : List (Nat × Nat))
-    (hinv : ∀ i s, (g i).get? s = held m t tok done i s)
-    (e : Hs) (hc : e.client < 65536) (i : Nat) (s : Subset) :
-    (stepHs m t false g e i).get? s = held m t tok ((e.client, e.server) :: done) i s := by
+    (hinv : ∀ i s, (g.get i).get? s = held m t tok done i s)
+    (e : Hs) (hc : e.client < 65536) (hsl : e.server < g.length) (i : Nat) (s : Subset) :
+    ((stepHs m t false g e).get i).get? s = held m t tok ((e.client, e.server) :: done) i s := by
   by_cases hi : i = e.server
   · subst hi
     have hk : ∀ s ∈ keysFromPeer m t e.server e.client,
-        ∃ v, (g e.client).get? s = some v ∧ v.length = 16 := by
+        ∃ v, (g.get e.client).get? s = some v ∧ v.length = 16 := by
       intro s hs
       obtain ⟨h1, h2, _⟩ := mem_keysFromPeer.1 hs
       refine ⟨genKey m t tok s, ?_, htok _ _⟩
       rw [hinv, held]
       simp [h1, headIs_mem h2, (headIs_iff.1 h2).2]
-    rw [stepHs_store m t g e hc hk s]
+    rw [stepHs_store m t g e hc hsl hk s]
     by_cases hs : s ∈ keysFromPeer m t e.server e.client
     · obtain ⟨h1, h2, h3⟩ := mem_keysFromPeer.1 hs
       have hd := (headIs_iff.1 h2).2
@@ -308,28 +342,39 @@ theorem inv_step (m t : Nat) (tok : Nat → Nat → Bytes) (htok : ∀ p k, (tok
     simp only [held, mem_cons, Prod.mk.injEq, hi, and_false, false_or]
 
 theorem inv_run (m t : Nat) (tok : Nat → Nat → Bytes) (htok : ∀ p k, (tok p k).length = 16)
-    (evs : List Hs) (hev : ∀ e ∈ evs, e.client < 65536)
-    (g : Stores) (done : List (Nat × Nat))
-    (hinv : ∀ i s, (g i).get? s = held m t tok done i s) (i : Nat) (s : Subset) :
-    (runHs m t false g evs i).get? s
+    (g : Stores) (evs : List Hs) (hev : ∀ e ∈ evs, e.client < 65536 ∧ e.server < g.length)
+    (done : List (Nat × Nat))
+    (hinv : ∀ i s, (g.get i).get? s = held m t tok done i s) (i : Nat) (s : Subset) :
+    ((runHs m t false g evs).get i).get? s
       = held m t tok ((evs.map fun e => (e.client, e.server)).reverse ++ done) i s := by
   induction evs generalizing g done with
   | nil => simpa [runHs] using hinv i s
   | cons e es ih =>
     have he := hev e mem_cons_self
-    have := ih (fun e' h' => hev e' (mem_cons_of_mem _ h')) (stepHs m t false g e)
-      ((e.client, e.server) :: done) (inv_step m t tok htok g done hinv e he)
+    have := ih (stepHs m t false g e)
+      (fun e' h' => by rw [length_stepHs]; exact hev e' (mem_cons_of_mem _ h'))
+      ((e.client, e.server) :: done) (inv_step m t tok htok g done hinv e he.1 he.2)
     simpa [runHs] using this
 
 /-! ### without PRSS nothing is generated, sent or stored -/
 
 theorem stepHs_noPrss (m t : Nat) (g : Stores) (e : Hs) : stepHs m t true g e = g := by
-  funext k
-  by_cases hk : k = e.server
-  · subst hk
-    simp only [stepHs, Stores.upd, ↓reduceIte, Server.feedAll_chunksOf]
+  have h : (Server.feedAll m t e.server true { buf := [], peer := none, store := g.get e.server }
+      (chunksOf (clientMsg m t e.client e.server true (g.get e.client)) e.cuts)).store
+        = g.get e.server := by
+    rw [Server.feedAll_chunksOf]
     simp [Server.feed, clientMsg, pidBytes]
-  · exact stepHs_other _ _ _ _ _ hk
+  simp only [stepHs, h]
+  simp only [Stores.upd, Stores.get]
+  apply List.ext_getElem?
+  intro k
+  rw [getElem?_set]
+  by_cases hk : e.server = k
+  · subst hk
+    by_cases hl : e.server < g.length
+    · simp [hl]
+    · simp [hl]
+  · simp [hk]
 
 theorem runHs_noPrss (m t : Nat) (g : Stores) (evs : List Hs) : runHs m t true g evs = g := by
   induction evs generalizing g with
